@@ -44,46 +44,60 @@ fn count(ds: &Vec<crate::diagnostics::Diagnostic>, code: &str) -> usize {
     n
 }
 
-//@ prop: C04
-//@ family: K04-members
-//@ tier: quick
-//@ functions: validators::members::tags_have_optional_types, Member::{is_tagged, data_type}
-//@ inst: Vec<&Field> of 2 hand-built fields, the first untagged and non-optional, the second symbolic
-//@ inputs: second field: tagged or not, tag value (any u32), optional or not
-//@ oracle: "tags ... only on optional members": E016 exactly when the field is tagged and not optional; nothing else
-//@ stubs: std::fmt::format -> empty string
-//@ bound: unwind 6; at most one diagnostic (a data-dependent position in the diagnostics vector costs > 10 GB)
-#[kani::proof]
-#[kani::unwind(6)]
-#[kani::stub(std::fmt::format, stub_format)]
-fn k04_tag_needs_optional() {
-    let ht: bool = kani::any();
-    let tg: u32 = kani::any();
-    let op: bool = kani::any();
-    let f0 = field(false, 0, false);
-    let f1 = field(ht, tg, op);
-    let mut members: Vec<&Field> = Vec::with_capacity(2);
-    members.push(&f0);
-    members.push(&f1);
-    let mut diagnostics = Diagnostics::verif_with_capacity(2);
-    tags_have_optional_types(members, &mut diagnostics);
-    let want = ht && !op;
-    kani::cover!(want && tg == 0, "tag 0 on a non-optional member reachable");
-    kani::cover!(ht && op, "tagged optional member accepted reachable");
-    let ds = diagnostics.into_inner();
-    assert!(ds.len() == want as usize, "a member is diagnosed exactly when it is tagged and not optional");
-    if want {
-        assert!(ds[0].code() == "E016", "with E016 (tagged member must be optional)");
-    }
-    core::mem::forget(ds);
-    core::mem::forget(f0);
-    core::mem::forget(f1);
+macro_rules! tag_optional_case {
+    ($ht:expr, $op:expr, $tg:ident) => {{
+        let f0 = field(false, 0, false);
+        let f1 = field($ht, $tg, $op);
+        let mut members: Vec<&Field> = Vec::with_capacity(2);
+        members.push(&f0);
+        members.push(&f1);
+        let mut diagnostics = Diagnostics::verif_with_capacity(2);
+        validate_members(members, &mut diagnostics);
+        let want = $ht && !$op;
+        let ds = diagnostics.into_inner();
+        assert!(ds.len() == want as usize, "a member is diagnosed exactly when it is tagged and not optional");
+        if want {
+            assert!(ds[0].code() == "E016", "with E016 (tagged member must be optional)");
+        }
+        core::mem::forget(ds);
+        core::mem::forget(f0);
+        core::mem::forget(f1);
+    }};
 }
 
 //@ prop: C04
 //@ family: K04-members
 //@ tier: quick
-//@ functions: validators::members::tags_are_unique (filter, sort_by_key, windows), Member::tag
+//@ functions: validators::members::validate_members (public rule entry), tags_have_optional_types, tags_are_unique, Member::{is_tagged, data_type}
+//@ inst: Vec<&Field> of 2 hand-built fields, the first untagged and non-optional; the second in all four (tagged, optional) combinations (concrete layouts, symbolic selector)
+//@ inputs: tagged x optional (4 concrete cases); the tag value (any u32)
+//@ oracle: "tags ... only on optional members": E016 exactly when the field is tagged and not optional; nothing else
+//@ stubs: std::fmt::format -> empty string
+//@ bound: unwind 6; flags are enumerated as concrete cases (a symbolic flag makes the filter/collect/sort of the second rule allocate symbolic sizes)
+#[kani::proof]
+#[kani::unwind(6)]
+#[kani::stub(std::fmt::format, stub_format)]
+fn k04_tag_needs_optional() {
+    let tg: u32 = kani::any();
+    let case: u8 = kani::any();
+    kani::assume(case < 4);
+    kani::cover!(case == 2 && tg == 0, "tag 0 on a non-optional member reachable");
+    kani::cover!(case == 3 && tg == 2147483647, "largest tag on an optional member reachable");
+    if case == 0 {
+        tag_optional_case!(false, false, tg)
+    } else if case == 1 {
+        tag_optional_case!(false, true, tg)
+    } else if case == 2 {
+        tag_optional_case!(true, false, tg)
+    } else {
+        tag_optional_case!(true, true, tg)
+    }
+}
+
+//@ prop: C04
+//@ family: K04-members
+//@ tier: quick
+//@ functions: validators::members::validate_members (public rule entry), tags_are_unique (filter, sort_by_key, windows), tags_have_optional_types, Member::tag
 //@ inst: Vec<&Field> of exactly 3 hand-built optional fields: two tagged and, between them, an untagged one (concrete shape)
 //@ inputs: the two tag values (any u32)
 //@ oracle: "tags unique": E012 exactly when the two tags are equal (the untagged member in between neither hides nor causes it); nothing else
@@ -102,7 +116,7 @@ fn k04_tags_unique_2() {
     members.push(&fm);
     members.push(&f1);
     let mut diagnostics = Diagnostics::verif_with_capacity(2);
-    tags_are_unique(members, &mut diagnostics);
+    validate_members(members, &mut diagnostics);
     let want = tg[0] == tg[1];
     kani::cover!(want && tg[0] == 2147483647, "duplicate of the largest tag reachable");
     kani::cover!(want && tg[0] == 0, "duplicate of tag 0 (the untagged member's dummy value) reachable");
@@ -121,7 +135,7 @@ fn k04_tags_unique_2() {
 //@ prop: C04
 //@ family: K04-members
 //@ tier: thorough
-//@ functions: validators::members::tags_are_unique
+//@ functions: validators::members::validate_members (public rule entry), tags_are_unique
 //@ inst: Vec<&Field> of exactly 3 hand-built optional tagged fields, the first two with distinct tags
 //@ inputs: three tag values (any u32) with tag0 != tag1 assigned by construction (tag1 = tag0 + 1 + d)
 //@ oracle: E012 exactly when the third tag equals one of the first two (sorting must bring the equal pair together wherever it stands); nothing else
@@ -149,7 +163,7 @@ fn k04_tags_unique_3() {
     members.push(&f1);
     members.push(&f2);
     let mut diagnostics = Diagnostics::verif_with_capacity(2);
-    tags_are_unique(members, &mut diagnostics);
+    validate_members(members, &mut diagnostics);
     let want = t2 == t0 || t2 == t1;
     kani::cover!(want && order == 2 && t0 < t1, "equal tags first and second in source, third larger reachable");
     kani::cover!(want && order == 1, "duplicate first in source order reachable");
